@@ -86,6 +86,7 @@ func (m *CPU) Run(app risc.Application) (int, error) {
 	cycle := 0
 	for {
 		cycle++
+		m.ctx.VerifTick(cycle)
 		log.Info(m.ctx, "Cycle %d", cycle)
 		m.decodeBus.Connect(cycle)
 		m.controlBus.Connect(cycle)
@@ -134,6 +135,7 @@ func (m *CPU) Run(app risc.Application) (int, error) {
 			cycle++
 			m.writeBus.Connect(cycle)
 			for !m.areWriteUnitsEmpty() || !m.writeBus.IsEmpty() {
+				m.ctx.VerifTick(cycle)
 				for _, wu := range m.writeUnits {
 					_ = wu.Cycle(wuReq{-1})
 				}
@@ -153,6 +155,7 @@ func (m *CPU) Run(app risc.Application) (int, error) {
 
 			for {
 				isEmpty := true
+				m.ctx.VerifTick(cycle)
 				cycle++
 				for _, eu := range m.executeUnits {
 					if !eu.isEmpty() {
@@ -173,6 +176,7 @@ func (m *CPU) Run(app risc.Application) (int, error) {
 				m.writeBus.Connect(cycle + 1)
 				for _, wu := range m.writeUnits {
 					for !wu.isEmpty() || !m.writeBus.IsEmpty() {
+						m.ctx.VerifTick(cycle)
 						_ = wu.Cycle(wuReq{sequenceID})
 					}
 				}
